@@ -307,14 +307,20 @@ def run_session(job, emit):
         for ai in range(len(args)):
             kind = layout.get('%s:%d:%d' % (cid, k, ai))
             if kind and ai not in od.inplace:
-                new = relayout(args[ai], kind)
+                try:
+                    new = relayout(args[ai], kind)
+                except Exception:
+                    new = args[ai]        # an object dadi itself left inconsistent: no layout change
                 if new is not args[ai]:
                     args[ai] = new
                     applied.append([ai, kind])
         for kk in list(kwargs):
             kind = layout.get('%s:%d:%s' % (cid, k, kk))
             if kind and kk not in od.inplace:
-                new = relayout(kwargs[kk], kind)
+                try:
+                    new = relayout(kwargs[kk], kind)
+                except Exception:
+                    new = kwargs[kk]
                 if new is not kwargs[kk]:
                     kwargs[kk] = new
                     applied.append([kk, kind])
@@ -348,7 +354,10 @@ def run_session(job, emit):
         if counters:
             frame['hits'] = {c: counters.hits[c] - hits0.get(c, 0) for c in counters.hits if counters.hits[c] != hits0.get(c, 0)}
         env[step['r']] = res
-        frame['nf'] = ('v', 'not-compared') if od.no_compare else nf(res)
+        try:
+            frame['nf'] = ('v', 'not-compared') if od.no_compare else nf(res)
+        except Exception as e:
+            frame['nf'] = ('exc', 'NormalForm:' + type(e).__name__)
         frame['res_layout'] = layout_desc(res)
         emit(frame)
     import numpy
